@@ -113,6 +113,8 @@ TEMPLATES = {
   # parsed under CPython's default recursion limit.  Short ones (a dozen levels) bound the *work* of re-serialising: every layer is packed O(1) times.
   # RIPv2 response with one route entry whose netmask (any 32-bit pattern, contiguous or not) and the low bits of tag and metric are symbolic
   'rip_entry': lambda n: ETH + [0x08, 0x00],
+  # DNS response with a CNAME / NS record whose target name is four characters long ("t.co", "a.gl"): id, flags, ttl and record type (2 or 5) symbolic
+  'dns_name4': lambda n: ETH + [0x08, 0x00],
   'nest_vxlan': lambda n: [], 'nest_icmp': lambda n: [], 'nest_gre': lambda n: [], 'nest_greeth': lambda n: [],
 }
 
@@ -190,6 +192,13 @@ def h_template(ctx, name, n, proto=None, ports=None):
     bootp = [1, 1, 6, 0] + list(sym[3:7]) + [0] * 20 + [2, 0, 0, 0, 0, 1] + [0] * 10 + [0] * 192 + [0x63, 0x82, 0x53, 0x63]
     udplen = 8 + len(bootp) + len(opts); iplen = 20 + udplen
     body = [0x45, 0, iplen >> 8, iplen & 255, 0, 1, 0, 0, 64, 17, 0, 0, 0, 0, 0, 0, 255, 255, 255, 255] + [0, 68, 0, 67, udplen >> 8, udplen & 255, 0, 0] + bootp + opts
+  if name == 'dns_name4':
+    sym = body
+    q = [3, 0x77, 0x77, 0x77, 1, 0x78, 0] + [0, 1, 0, 1]                                    # www.x  A IN
+    rtype = ctx.Ite((sym[4] & 1) == 1, 5, 2)
+    an = [0xc0, 12] + [0, rtype, 0, 1] + list(sym[5:9]) + [0, 6] + [1, 0x74, 2, 0x63, 0x6f, 0]  # -> t.co
+    dnsb = [sym[0], sym[1], 0x81 | (sym[2] & 0x04), 0x80 | (sym[3] & 0x0f), 0, 1, 0, 1, 0, 0, 0, 0] + q + an
+    body = [0x45, 0, 0, 20 + 8 + len(dnsb), 0, 1, 0, 0, 64, 17, 0, 0, 10, 0, 0, 1, 10, 0, 0, 2] + [0, 53, 0x30, 0x39, 0, 8 + len(dnsb), 0, 0] + dnsb
   if name == 'rip_entry':
     sym = body
     rip = [2, 2, 0, 0] + [0, 2, 0, sym[0], 10, 1, 2, 0] + list(sym[2:6]) + [0, 0, 0, 0] + [0, 0, 0, sym[1] & 15]
@@ -233,7 +242,7 @@ def obligations(tier):
                      ('mpls', [14, 18, 22]), ('llc', [14, 17, 18, 22, 24]), ('ipv6', [14, 30, 54, 58])):
     for n in lens: t.append(dict(name=name, n=n))
   for n in [32, 34, 36] + ([38] if thorough else []): t.append(dict(name='lldp4', n=n))
-  t.append(dict(name='rip_entry', n=24)); t.append(dict(name='tcp_long', n=330)); t.append(dict(name='tcp_mptcp', n=90)); t.append(dict(name='dhcp_long', n=30))
+  t.append(dict(name='rip_entry', n=24)); t.append(dict(name='dns_name4', n=14 + 9)); t.append(dict(name='tcp_long', n=330)); t.append(dict(name='tcp_mptcp', n=90)); t.append(dict(name='dhcp_long', n=30))
   for n in (1378, 1458, 1514): t.append(dict(name='vlan_stack', n=n))
   for n in (1378, 1514): t.append(dict(name='mpls_stack', n=n))
   for name, lens in (('nest_vxlan', [600, 1514, 9014]), ('nest_icmp', [400, 9014]), ('nest_gre', [400, 9014]), ('nest_greeth', [500, 9014])):
@@ -246,7 +255,7 @@ def obligations(tier):
     for n in lens: t.append(dict(name='ip', n=n, proto=17, ports=ports))
   for proto, lens in ((58, [54, 58, 62, 78]), (17, [54, 62]), (6, [54, 74]), (0, [54, 62, 70]), (43, [58, 62]), (44, [55, 58, 61, 62]), (60, [58, 62])):
     for n in lens: t.append(dict(name='ipv6', n=n, proto=proto))
-  if not thorough: t = [c for i, c in enumerate(t) if c['n'] <= 58 or (c['name'] == 'ipv6' and c.get('proto') in (43, 44, 60)) or c.get('ports') == (68, 67) or c.get('proto') == 1 or c['name'] in ('rip_entry', 'tcp_long', 'tcp_mptcp', 'dhcp_long', 'vlan_stack', 'mpls_stack') or c['name'].startswith('nest_')]
+  if not thorough: t = [c for i, c in enumerate(t) if c['n'] <= 58 or (c['name'] == 'ipv6' and c.get('proto') in (43, 44, 60)) or c.get('ports') == (68, 67) or c.get('proto') == 1 or c['name'] in ('rip_entry', 'dns_name4', 'tcp_long', 'tcp_mptcp', 'dhcp_long', 'vlan_stack', 'mpls_stack') or c['name'].startswith('nest_')]
   BOUNDS[tier] = dict(random_frame_lengths=rnd, templates=len(t), template_note="dispatch fields fixed, all other bytes (incl. every length/offset field) symbolic, "
                       "frame length = truncation point")
   return [
